@@ -1,5 +1,5 @@
 """C01 Assembler and disassembler agree: encode->decode->encode is a fixpoint; golden MSP430 / RV32I."""
-import os, re, random
+import json, os, re, random
 from hypothesis import strategies as st
 
 from nvlib import (Worker, WorkerCrash, WorkerTimeout, Stats, Violation, hyp_run, shard_seed, load_known)
@@ -68,7 +68,7 @@ class Checker:
 
     def report(self, cpu, kind, mn, payload):
         if self.survey:
-            self.s.notes.append("SURVEY\t%s\t%s\t%s\t1\t%s" % (cpu, kind, mn, str(payload)[:260]))
+            self.s.notes.append("SURVEY\t%s\t%s\t%s\t1\t%s" % (cpu, kind, mn, json.dumps(payload)))
             return
         fid = self.known.match(cpu, kind, mn)
         if fid:
@@ -218,7 +218,7 @@ def run(tier, seed, shard, nshards):
         # ---- (c): disassembler renderings over enumerated patterns (shared scan with C07)
         mine = [c for i, c in enumerate(cpus) if i % nshards == shard]
         for c in mine:
-            for v in c07.scan(w, s, c["name"], tier, ("c01_walk", "c01_refix"), known, PROP, survey):
+            for v in c07.scan(w, s, c["name"], tier, ("c01_walk", "c01_refix"), known, PROP, survey, c["align"]):
                 v["engine"] = "c01"
                 v["mode"] = "scan"
                 s.violations.append(v)
